@@ -133,7 +133,8 @@ def _programs(ctx):
                       "docs_shflag": rng.random() < 0.5, "shard_enc": rng.choice(["gzip", "raw"]),
                       "slice_format": ["png", "tiff"][k % 2]})
     progs += (_boundary_programs(ctx) + _multi_chunking_programs(ctx) + _zero_background_programs(ctx)
-              + _in_process_programs(ctx) + _history_programs(ctx))
+              + _in_process_programs(ctx) + _history_programs(ctx) + _slice_boundary_programs(ctx)
+              + _thick_slice_programs(ctx))
     return progs
 
 
@@ -203,6 +204,59 @@ def _zero_background_programs(ctx):
             cmds += [C("Convert", "B", src="A", copy="copy")]
         cmds += [C("Stats", "B"), C("Convert", "B", src="A", copy="keep"), C("Stats", "B")]
         progs.append(_prog(rng, vol, cmds))
+    return progs
+
+
+def _slice_boundary_programs(ctx):
+    """Slice stacks whose size along the image width (columns), the image height
+    (rows) or the slice axis is n*chunk + 1 (also n*chunk, 1): the chunk counts
+    of the report against what slices-to-precomputed wrote.  The orientation
+    code decides which volume axis the columns / rows / slices run along."""
+    rng = ctx.rng
+    iso = [1.0, 1.0, 1.0]
+    cases = [([65, 3, 2], 64, "RAS"), ([3, 65, 2], 64, "ARS"), ([2, 3, 65], 64, "SRA"),
+             ([3, 65, 2], 64, "RPI"), ([9, 13, 5], 4, "RAS"), ([13, 5, 9], 4, "LIP"),
+             ([5, 9, 13], 4, "SAL"), ([17, 1, 9], 8, "RAS"), ([33, 17, 16], 16, "PIR")]
+    if not ctx.quick:
+        codes = ["RAS", "LPI", "ARS", "SRA", "IAL", "PSR", "RIP", "ASL"]
+        for _ in range(24):
+            t = rng.choice([4, 8, 16])
+            shape = [rng.choice([1, t, t + 1, 2 * t + 1, 2 * t, rng.randint(2, 3 * t)]) for _ in range(3)]
+            if max(shape) > t and pd.n_levels(shape, iso, t) <= 3:
+                cases.append((shape, t, rng.choice(codes)))
+    progs = []
+    for k, (shape, tgt, code) in enumerate(cases):
+        vol = _vol(shape, ["uint8", "uint16"][k % 2], iso, tgt)
+        cmds = [C("HandInfo", "A", sh="nosh"), C("GenScales", "A", src="A", type="image", enc="raw", max="all"),
+                C("Slices", "A", code=code), C("Stats", "A"), C("Compute", "A", m="auto"), C("Stats", "A")]
+        progs.append(_prog(rng, vol, cmds, tgt=None if tgt == 64 else tgt, slice_format=["png", "tiff"][k % 2]))
+    return progs
+
+
+def _thick_slice_programs(ctx):
+    """Thick-slice / strongly anisotropic voxels (1x1x4, 4x1x1, 1x4x1, 1x3x1): the chunk sizes
+    of consecutive scales differ per axis and SHRINK along some axes; with --max-scales the
+    affected scale is the last one.  Vol, Compute, Stats."""
+    rng = ctx.rng
+    progs = []
+    cases = [([12, 20, 8], [1.0, 1.0, 4.0], 4, "two"), ([12, 20, 8], [1.0, 1.0, 4.0], 4, "all"),
+             ([8, 12, 20], [4.0, 1.0, 1.0], 4, "two"), ([20, 8, 12], [1.0, 4.0, 1.0], 4, "two"),
+             ([10, 22, 6], [1.0, 3.0, 1.0], 4, "two"), ([24, 40, 6], [1.0, 1.0, 4.0], 8, "two"),
+             ([20, 18, 10], [2.0, 1.0, 8.0], 4, "two")]
+    if not ctx.quick:
+        for _ in range(20):
+            t = rng.choice([4, 8])
+            voxel = rng.choice([[1.0, 1.0, 4.0], [4.0, 1.0, 1.0], [1.0, 4.0, 1.0], [1.0, 3.0, 1.0], [1.0, 2.0, 8.0]])
+            cases.append(([rng.randint(t + 1, 5 * t), rng.randint(t + 1, 5 * t), rng.randint(2, 3 * t)], voxel, t,
+                          rng.choice(["two", "all"])))
+    for k, (shape, voxel, tgt, mx) in enumerate(cases):
+        lv = pd.n_levels(shape, voxel, tgt)
+        if lv > 3 and mx == "all":
+            mx = "two"
+        vol = _vol(shape, ["uint8", "uint16"][k % 2], voxel, tgt)
+        cmds = [C("GenInfo", "A", sh="nosh"), C("GenScales", "A", src="A", type="image", enc="raw", max=mx),
+                C("Vol", "A"), C("Stats", "A"), C("Compute", "A", m=["auto", "stride"][k % 2]), C("Stats", "A")]
+        progs.append(_prog(rng, vol, cmds, tgt=tgt))
     return progs
 
 
